@@ -4,6 +4,7 @@ import AvoVerif.Props.C11Tables
 import AvoVerif.Props.C11Examples
 import AvoVerif.Props.C11Accept
 import AvoVerif.Props.C11Bind
+import AvoVerif.Props.C11Hist
 #print axioms Avo.Print.flush_complete
 #print axioms Avo.Print.flush_complete_function
 #print axioms Avo.Print.labels_bound
@@ -31,3 +32,18 @@ import AvoVerif.Props.C11Bind
 #print axioms Avo.Drv.C11.exDataFile_accepted
 #print axioms Avo.Drv.C11.exAsmFn_accepted
 #print axioms Avo.Print.labelsFrom_is_labelTarget
+#print axioms Avo.Print.Hist.hist_print_current
+#print axioms Avo.Print.Hist.hist_print_faithful
+#print axioms Avo.Print.Hist.hist_C11_partial
+#print axioms Avo.Print.Hist.run_length
+#print axioms Avo.Print.Hist.run_eq_printStates
+#print axioms Avo.Print.Hist.heapAfter_frame
+#print axioms Avo.Print.Hist.inspections_irrelevant
+#print axioms Avo.Print.Hist.print_twice_same
+#print axioms Avo.Print.Hist.text_of_content_only
+#print axioms Avo.Print.Hist.reprint_after_edit
+#print axioms Avo.Print.Hist.fresh_file_printed
+#print axioms Avo.Print.Hist.edit_instr_printed
+#print axioms Avo.Print.Hist.edit_suffixes_printed
+#print axioms Avo.Print.Hist.edit_instr_count
+#print axioms Avo.Print.Hist.acceptHist_sound
